@@ -66,6 +66,22 @@ def escape_default_alts(c):
     return alts
 
 
+def escape_debug_alts(c):
+    """core::char::escape_debug, over-approximated where it consults Unicode tables: a non-ASCII character is written either raw or
+    as \\u{..} (both alternatives are explored); ASCII is exact (NUL is written \\0)."""
+    alts = [(c == 0, [bv("\\"), bv("0")]), (c == 9, [bv("\\"), bv("t")]), (c == 13, [bv("\\"), bv("r")]), (c == 10, [bv("\\"), bv("n")]),
+            (c == 92, [bv("\\"), bv("\\")]), (c == 39, [bv("\\"), bv("'")]), (c == 34, [bv("\\"), bv('"')]),
+            (z3.And(z3.UGE(c, 0x20), z3.ULE(c, 0x7E), c != 92, c != 39, c != 34), [c]),
+            (z3.UGT(c, 0x7F), [c])]
+    other = z3.And(z3.Or(z3.And(z3.ULT(c, 0x20), c != 0), z3.UGE(c, 0x7F)), c != 9, c != 13, c != 10)
+    for d in range(1, 7):
+        lo, hi = (0 if d == 1 else 16 ** (d - 1)), 16 ** d
+        cond = z3.And(other, z3.UGE(c, lo), z3.ULT(c, hi))
+        digs = [hexchar(z3.LShR(c, 4 * (d - 1 - i)) & 0xF) for i in range(d)]
+        alts.append((cond, [bv("\\"), bv("u"), bv("{")] + digs + [bv("}")]))
+    return alts
+
+
 def lstr(I, st, v):
     v = models.deref(I, st, v)
     if isinstance(v, LStr):
@@ -104,6 +120,10 @@ def stubs():
     def m_escape_default(I, st, a):
         c = a[0].t
         return [(cond, SAgg("escaped", "", {0: LStr(chars)})) for cond, chars in escape_default_alts(c)]
+
+    def m_escape_debug(I, st, a):
+        c = a[0].t
+        return [(cond, SAgg("escaped", "", {0: LStr(chars)})) for cond, chars in escape_debug_alts(c)]
 
     def m_extend(I, st, a):
         r, e = a
@@ -232,7 +252,8 @@ def stubs():
         (r"^core::str::<impl str>::chars$", m_chars), (r"^<(std::str::|core::str::)?Chars<'_> as IntoIterator>::into_iter$", ident),
         (r"^<(std::str::|core::str::)?Chars<'_> as Iterator>::next$", m_chars_next),
         (r"^(core::)?char::methods::<impl char>::escape_default$", m_escape_default),
-        (r"^<(std::string::|alloc::string::)?String as Extend<char>>::extend$", m_extend),
+        (r"^(core::)?char::methods::<impl char>::escape_debug$", m_escape_debug),
+        (r"^<(std::string::|alloc::string::)?String as Extend<char>>::extend(::<.*>)?$", m_extend),
         (r"^core::str::<impl str>::starts_with$", m_starts), (r"^core::str::<impl str>::ends_with$", m_ends),
         (r"^core::str::<impl str>::contains$", m_contains), (r"^core::str::<impl str>::len$", m_len),
         (r"^(std|alloc|core)::str::<impl str>::replace$", m_replace),
